@@ -56,7 +56,7 @@ def content(rng):
 
 
 def area(rng, sheet_prefix=''):
-    kind = rng.choice(['row', 'col', 'rect', 'rect', 'wcol', 'cell'])
+    kind = rng.choice(['row', 'col', 'rect', 'rect', 'wcol', 'wcols', 'cell'])
     if kind == 'row':
         r, c1 = rng.randrange(1, 9), rng.randrange(1, 4)
         c2 = c1 + rng.randrange(1, 6 - c1)
@@ -72,6 +72,10 @@ def area(rng, sheet_prefix=''):
     if kind == 'wcol':
         c = rng.choice('ABCDE')
         return sheet_prefix + f'{c}:{c}', None
+    if kind == 'wcols':
+        c1 = rng.randrange(1, 5)
+        c2 = rng.randrange(c1 + 1, 6)
+        return sheet_prefix + f'{wbspec.get_column_letter(c1)}:{wbspec.get_column_letter(c2)}', None
     r, c = rng.randrange(1, 9), rng.randrange(1, 6)
     return sheet_prefix + wbspec.a1(r, c), None
 
@@ -159,6 +163,19 @@ def make_book(rng):
         if not sp:
             continue
         fn = rng.choice(['SUM', 'SUM', 'COUNT', 'MIN', 'MAX', 'COUNTBLANK'])
+        whole = put(f'={fn}({text})', nargs=1)
+        p1 = put(f'={fn}({sp[0]})', nargs=1)
+        p2 = put(f'={fn}({sp[1]})', nargs=1)
+        both = put(f'={fn}({sp[0]},{sp[1]})', nargs=2) if fn != 'COUNTBLANK' else None
+        laws.append((fn, whole, p1, p2, both, text, sp))
+    for _ in range(4):
+        pre = rng.choice(['', '', 'U!'])
+        c1 = rng.randrange(1, 5)
+        c2 = rng.randrange(c1 + 1, 6)
+        k = rng.randrange(c1, c2)
+        L = wbspec.get_column_letter
+        text, sp = f'{pre}{L(c1)}:{L(c2)}', (f'{pre}{L(c1)}:{L(k)}', f'{pre}{L(k + 1)}:{L(c2)}')
+        fn = rng.choice(['SUM', 'COUNT', 'MAX', 'MIN', 'COUNTBLANK'])
         whole = put(f'={fn}({text})', nargs=1)
         p1 = put(f'={fn}({sp[0]})', nargs=1)
         p2 = put(f'={fn}({sp[1]})', nargs=1)
